@@ -24,13 +24,13 @@ theorem src_type_convert_eq (x : Scalar) (i : Int) (bits : Nat) :
   unfold Gen.src_type_convert
   cases x with
   | str s =>
-    simp (decide := true) only [runItem, exec, eval, bind_ok', lookup_cons_eq, lookup_setVar_eq, scalarVal, truthy_bool',
-      if_false, Bool.false_eq_true, typeConvert]
+    simp only [runItem, exec, eval, bind_ok', lookup_cons_eq, lookup_setVar_eq, scalarVal, truthy_bool',
+      if_false, Bool.false_eq_true]
     rfl
   | num tok f =>
     cases f <;>
-    simp (decide := true) only [runItem, exec, eval, bind_ok', lookup_cons_eq, lookup_setVar_eq, scalarVal, truthy_bool',
-      if_false, if_true, Bool.false_eq_true, typeConvert] <;> rfl
+    simp only [runItem, exec, eval, bind_ok', lookup_cons_eq, lookup_setVar_eq, scalarVal, truthy_bool',
+      if_false, if_true, Bool.false_eq_true] <;> rfl
 
 /-! ### `get_type` on a list: the head of the list sorted by precedence -/
 
@@ -125,13 +125,13 @@ theorem src_get_type_scalar (x : Scalar) (i : Int) (bits : Nat) (junk : MiniPy.V
   cases x with
   | str s =>
     simp (decide := true) only [runItem, exec, eval, bind_ok', lookup_cons_eq, lookup_cons_ne, lookup_setVar_eq,
-      lookup_setVar_ne, scalarVal, truthy_bool', if_false, if_true, Bool.false_eq_true, typeConvert, isStr, or_bool,
+      lookup_setVar_ne, scalarVal, truthy_bool', if_false, if_true, Bool.false_eq_true, isStr, or_bool,
       Bool.not_true, Bool.or_false, Bool.true_or]
     rfl
   | num tok f =>
     cases f <;>
     simp (decide := true) only [runItem, exec, eval, bind_ok', lookup_cons_eq, lookup_cons_ne, lookup_setVar_eq,
-      lookup_setVar_ne, scalarVal, truthy_bool', if_false, if_true, Bool.false_eq_true, typeConvert, isStr, or_bool,
+      lookup_setVar_ne, scalarVal, truthy_bool', if_false, if_true, Bool.false_eq_true, isStr, or_bool,
       Bool.not_false, Bool.or_true, Bool.false_or] <;> rfl
 
 theorem src_get_type_list (xs : List Scalar) (h : xs ≠ []) (i : Int) (bits : Nat) (junk : MiniPy.Val) :
